@@ -1,27 +1,54 @@
 #!/usr/bin/env python3
 """Writes the TLC configurations of Aside.tla. Run in this directory after changing the table."""
-INV = 'INVARIANTS TypeOK NeverReturnsPlaceholder ValueFromLoaderOrStore LoaderOnceWhileHolderAlive LockStolenOnlyFromDead DelOnlyOwn NoOrphanWait'
-D = dict(clients='{1, 2}', keys='{1}', inc=2, loads=2, dl=0, le=0, ve=0, die=0, disc=0, to=0, late=0, lf=0, asyn='FALSE',
-         bR='FALSE', bL='FALSE', bD='FALSE', inv=INV, props='', spec='Spec', rec='FALSE', extra='')
+INV = 'INVARIANTS TypeOK NeverReturnsPlaceholder ValueFromLoaderOrStore LoaderOnceWhileHolderAlive LockStolenOnlyFromDead DelOnlyOwn NoOrphanWait LockNamesRefreshedId'
+D = dict(clients='{1, 2}', procs=None, co='CO_id', nilp='{}', loadp=None, keys='{1}', inc=2, loads=2, dl=0, le=0, ve=0, die=0, disc=0, to=0,
+         late=0, lf=0, asyn='FALSE', bR='FALSE', bL='FALSE', bD='FALSE', bA='FALSE', bN='FALSE', bS='FALSE', inv=INV, props='',
+         spec='Spec', rec='FALSE', extra='')
 CFGS = {
     'MC_aside_q1': dict(dl=1, die=1, to=1, lf=1),                        # Del, death, timeout, failing loader
     'MC_aside_q2': dict(le=1, ve=1, disc=1),                             # expiries and a disconnect
     'MC_aside_q3': dict(late=1, die=1, asyn='TRUE', loads=1),            # late refresh, pushes in flight
     'MC_aside_q4': dict(clients='{1, 2, 3}', loads=1, die=1),            # three clients
+    # round 2: two callers on one client racing through the registration of the client id, a third client; a disconnect
+    'MC_aside_q5': dict(procs='{1, 2, 3}', co='CO_112', loads=1),
+    'MC_aside_q6': dict(procs='{1, 2}', co='CO_11', clients='{1}', inc=3, disc=1),
+    # round 2: Gets without a loader (caller 2) against a holder that may die, time out, be deleted
+    'MC_aside_q7': dict(nilp='{2}', die=1, to=1, dl=1, loads=3),
+    'MC_aside_q8': dict(procs='{1, 2, 3}', co='CO_112', nilp='{2}', loadp='{1, 3}', die=1, loads=1),
     'MC_aside_neg_ph': dict(to=1, bR='TRUE', inv='INVARIANTS NeverReturnsPlaceholder'),
     'MC_aside_neg_live': dict(bL='TRUE', inv='INVARIANTS LoaderOnceWhileHolderAlive'),
     'MC_aside_neg_live2': dict(bL='TRUE', inv='INVARIANTS LockStolenOnlyFromDead'),
     'MC_aside_neg_del': dict(keys='{1}', lf=1, le=1, bD='TRUE', inv='INVARIANTS DelOnlyOwn'),
+    'MC_aside_neg_adopt': dict(procs='{1, 2, 3}', co='CO_112', bA='TRUE', inv='INVARIANTS LockNamesRefreshedId'),
+    'MC_aside_neg_adopt2': dict(procs='{1, 2, 3}', co='CO_112', keys='{1, 2}', bA='TRUE', inv='INVARIANTS LoaderOnceWhileHolderAlive'),
+    'MC_aside_neg_nil': dict(nilp='{2}', bN='TRUE', inv='INVARIANTS NeverReturnsPlaceholder'),
+    'MC_aside_neg_steal': dict(clients='{1, 2, 3}', die=1, bS='TRUE', inv='INVARIANTS DelOnlyOwn'),
+    'MC_aside_neg_steal2': dict(clients='{1, 2, 3}', die=1, loads=2, bS='TRUE', inv='INVARIANTS LoaderOnceWhileHolderAlive'),
     'MC_aside_live': dict(die=1, inv='', props='PROPERTIES GetsReturn DeadLockReleased', spec='FairSpec'),
+    'MC_aside_live2': dict(nilp='{2}', die=1, inv='', props='PROPERTIES GetsReturn DeadLockReleased', spec='FairSpec'),
     'MC_aside_t1': dict(clients='{1, 2, 3}', dl=1, die=1, to=1, lf=1),
     'MC_aside_t2': dict(keys='{1, 2}', dl=1, die=1, disc=1, loads=2),
     'MC_aside_t3': dict(dl=1, le=1, ve=1, die=1, disc=1, to=1, late=1, lf=1, asyn='TRUE'),
-    'MC_aside_gen': dict(clients='{1, 2, 3}', keys='{1, 2}', loads=3, dl=1, le=1, ve=1, die=1, disc=1, to=1, late=1, lf=1,
+    'MC_aside_t4': dict(procs='{1, 2, 3, 4}', co='CO_1123', clients='{1, 2, 3}', inc=3, disc=1, die=1, loads=2),
+    'MC_aside_t5': dict(procs='{1, 2, 3}', co='CO_112', nilp='{2, 3}', keys='{1, 2}', die=1, to=1, dl=1, lf=1, loads=3),
+    'MC_aside_t6': dict(procs='{1, 2, 3}', co='CO_112', inc=3, disc=1),
+    'MC_aside_t7': dict(procs='{1, 2}', co='CO_11', clients='{1}', inc=3, disc=1, dl=1, lf=1, keys='{1, 2}'),
+    'MC_aside_t8': dict(procs='{1, 2, 3}', co='CO_112', nilp='{2, 3}', die=1, to=1, loads=3),
+    'MC_aside_gen': dict(clients='{1, 2, 3}', procs='{1, 2, 3, 4}', co='CO_1223', nilp='{3, 4}', keys='{1, 2}', loads=3, inc=3,
+                         dl=1, le=1, ve=1, die=1, disc=1, to=1, late=1, lf=1,
                          rec='TRUE', inv='INVARIANTS GenEmit', extra='CONSTRAINT GenStop'),
+    # every behaviour of one loading Get (caller 1, may die / fail / be deleted) and one Get without a loader (caller 2)
+    # (simulation; exhaustive generation with the history in the state prints 4 * 10^5 behaviours)
+    'MC_aside_nilgen': dict(nilp='{2}', loadp='{1}', die=1, lf=1, dl=1, loads=1, rec='TRUE', inv='INVARIANTS NilEmit',
+                            extra='CONSTRAINT NilStop'),
 }
 T = '''SPECIFICATION {spec}
 CONSTANTS
   Clients = {clients}
+  Procs = {procs}
+  ClientOf <- {co}
+  NilProcs = {nilp}
+  LoadProcs = {loadp}
   Keys = {keys}
   MaxInc = {inc}
   MaxLoads = {loads}
@@ -37,6 +64,9 @@ CONSTANTS
   BugReturnPh = {bR}
   BugNoLiveness = {bL}
   BugDelNoCompare = {bD}
+  BugNoAdopt = {bA}
+  BugNilFastPath = {bN}
+  BugStealPlainDel = {bS}
   Record = {rec}
   GenLen = 30
 {inv}
@@ -47,4 +77,8 @@ CHECK_DEADLOCK FALSE
 for name, over in CFGS.items():
     d = dict(D)
     d.update(over)
+    if d['procs'] is None:
+        d['procs'] = d['clients']
+    if d['loadp'] is None:
+        d['loadp'] = d['procs']
     open(name + '.cfg', 'w').write(T.format(**d))
